@@ -43,8 +43,8 @@ func TestMain(m *testing.M) {
 		"ns:admin", "ns:aqua", "ns:btc", "ns:debug", "ns:miner", "ns:net", "ns:personal", "ns:rpc", "ns:testing", "ns:txpool", "ns:web3",
 		"reached:unlocked-account", "reached:right-passphrase", "names:locked-account", "pass:wrong", "txargs:mirror-pending",
 		"wire-alias", "sent-in-batch", "subscription", "witness",
-		"positive-control-fired", "expect:must-not", "expect:must")
-	ev.MustHitThorough("env-kind:combo", "env-kind:falsy", "env-kind:unparsable", "env-kind:mixed", "expect:may",
+		"positive-control-fired", "expect:must-not", "expect:must", "env-kind:falsy")
+	ev.MustHitThorough("env-kind:combo", "env-kind:unparsable", "env-kind:mixed", "expect:may",
 		"positive-control-fired:inproc", "positive-control-fired:ipc", "positive-control-fired:http", "positive-control-fired:ws")
 	var excl []string
 	for k, v := range excludedMethods {
@@ -54,19 +54,19 @@ func TestMain(m *testing.M) {
 	ev.Main(m, ev.Config{
 		Property: "C18",
 		Level:    "exploration",
-		Rule: "one child process per environment configuration (quick: default + each of the 5 UNSAFE_* variables alone; thorough: all 32 combinations with varied affirmative spellings, explicit negatives, unparsable values, look-alike names; the default environment in every shard). " +
+		Rule: "one child process per environment configuration (quick: default + each of the 5 UNSAFE_* variables alone + all five set to explicit negatives; thorough: all 32 combinations with varied affirmative spellings, explicit negatives, unparsable values, look-alike names; the default environment in every shard). " +
 			"Each child starts a real node.Node (aqua service, fake PoW, in-memory chain, real light-scrypt keystore with one unlocked and one locked account whose keys the harness also holds, a pending pool transaction from the unlocked one) with in-proc, IPC, HTTP and WS endpoints and every namespace of the in-proc rpc_modules whitelisted on HTTP/WS. " +
 			"Method universe = reflection over the API list the node registered (node.Node.rpcAPIs) ∪ the callbacks found in each endpoint's rpc.Server registry ∪ RegisterName's own name list ∪ wire aliases (eth_X for aqua_X, bare names for btc_). " +
 			"Per transport: a fixed list of documented signing calls (witnesses / positive control), then per method N calls (quick 20, thorough 30) whose arguments are drawn with rapid from the reflected parameter types; 1 in 12 calls is sent inside a JSON-RPC batch; subscriptions are created through <ns>_subscribe. " +
 			"Verdict per call: signing-counter delta in the child. evaluation = one RPC call. non-trivial = the arguments name a keystore account (locked or unlocked) and the call reached a registered method (answer is neither method-not-found nor invalid-params); distinct by hash(env, transport, method, params JSON).",
-		Assumptions: append([]string{
+		Assumptions: []string{
 			"keystore.VerifSignCount counts every signature made with a keystore key (hook calls sit in SignHash, SignHashAllowed, SignHashOK, SignTx, SignHashWithPassphrase, SignTxWithPassphrase)",
 			"what the statement demands per transport T: variable of T explicitly affirmative (1,true,yes,on,enable,enabled) => documented signing methods over T must sign; variable of T unset/empty/explicit negative and UNSAFE_RPC_SIGNING unset/negative => no call over T may sign; otherwise (UNSAFE_RPC_SIGNING affirmative, or an unparsable value) the statement does not decide for T and only the other transports are judged",
 			"consensus engine is aquahash (fake seal): block sealing does not use keystore keys; a clique chain, where miner_start signs blocks by design, is out of scope",
 			"a signature is attributed to the call during which the counter moved; calls are strictly sequential in the child, locked-down transports are exercised before opted-in ones, and the counter is checked again 300 ms after the last call",
 			"state the generated calls may change (lock state of the two accounts, pending transaction, mining, GC percent) is restored before every call, outside the measured window",
 			"methods never called (disruptive, none can sign): " + strings.Join(excl, "; "),
-		}),
+		},
 	})
 }
 
@@ -262,7 +262,7 @@ func TestSigningLockdown(t *testing.T) {
 		}
 	}
 	calls := ev.Pick(20, 30)
-	par := ev.Pick(6, 3)
+	par := ev.Pick(7, 3)
 	// generous: a child takes ~30 s on an idle machine, several times that on a loaded one;
 	// a child that runs out of time makes the run inconclusive, never a violation
 	timeout := time.Duration(ev.Pick(340, 1300)) * time.Second
